@@ -4,6 +4,7 @@
 -/
 import Jqawk.Model.Driver
 import Jqawk.Model.Dump
+import Jqawk.Model.Scope
 
 open Jqawk
 
@@ -44,12 +45,21 @@ def answerRun (prog : Bytes) (sels : List Bytes) (files : List InputFile) (flags
       | .ok, some s => (match getRootJson s with | some j => showHex j | none => "ERR")
       | _, _ => "-"
     else "-"
+  -- is the parsed program (and every selector that parses) well-scoped? (link to C01's theorem)
+  let ws : Bool :=
+    (match parseProgramSrc tbl prog with
+     | .ok p => p.wellScopedB
+     | _ => true) &&
+    sels.all (fun sel => match parseExpressionSrc tbl sel with
+      | .ok e => e.scopedB
+      | _ => true)
+  let wsS := if ws then "1" else "0"
   match r.outcome with
-  | .ok => s!"R class=ok out={out} json={json} depth={depth} faults={faults}"
+  | .ok => s!"R class=ok out={out} json={json} depth={depth} faults={faults} ws={wsS}"
   | .syntaxErr src e => s!"R class=syntax out={out} {posInfo src e.pos} msg={e.msg.replace " " "_"}"
-  | .runtimeErr src pos msg => s!"R class=runtime out={out} {posInfo src pos} faults={faults} msg={msg.replace " " "_"}"
-  | .jsonErr file => s!"R class=json out={out} file={showHex file}"
-  | .sentinel _ => s!"R class=sentinel out={out}"
+  | .runtimeErr src pos msg => s!"R class=runtime out={out} {posInfo src pos} faults={faults} ws={wsS} msg={msg.replace " " "_"}"
+  | .jsonErr file => s!"R class=json out={out} file={showHex file} ws={wsS}"
+  | .sentinel _ => s!"R class=sentinel out={out} ws={wsS}"
   | .panic m => s!"R class=panic out={out} msg={m.replace " " "_"}"
   | .unmodelled w => s!"R class=unmodelled why={w.replace " " "_"}"
   | .oof => "R class=oof"
